@@ -117,11 +117,25 @@ func ruleBulkRun(c *core.Ctx) {
 			return true
 		})
 		if !seen {
-			// the refusal is written some other way (nested ifs, a switch): recognised only when
-			// both flags are read at all
-			recFirst = false
+			// the refusal is written some other way (nested ifs, a switch): an unrecognised shape —
+			// unless Validate does not look at the two flags at all, which is the violation itself
+			mentionsA, mentionsP := false, false
+			ast.Inspect(v.Decl.Body, func(n ast.Node) bool {
+				if se, ok := n.(*ast.SelectorExpr); ok {
+					mentionsA = mentionsA || se.Sel.Name == "Atomic"
+					mentionsP = mentionsP || se.Sel.Name == "Parallel"
+				}
+				return true
+			})
+			if mentionsA && mentionsP {
+				recFirst = false
+			}
 		}
 		okFirst = okFirst && rej
+	}
+	if len(val) == 0 && len(scopeCalls(fnScope(c, d, 1), named("Validate"))) == 0 {
+		// nothing validates the options before the bulk starts
+		recFirst, okFirst = true, false
 	}
 	c.Shape(recFirst, okFirst, "DOM/bulk-validate-first", key, pos(c, d.Decl), "Validate (atomic ∧ parallel refused) before BeginTX and run", "bulk options are not validated (atomic together with parallel refused) before the bulk starts: elements of an 'atomic' bulk could run concurrently on one SQL transaction")
 	// BeginTX exactly when Atomic: every BeginTX sits on the positive side of the Atomic flag, and,
@@ -222,64 +236,162 @@ func ruleBulkRun(c *core.Ctx) {
 	}
 }
 
-func ruleBulkWorker(c *core.Ctx) {
+// bulkModel identifies the moving parts of Bulker.run by what they are, not by their names: the
+// shared failure flag (the atomic.Bool local), the element counter (the variable incremented in
+// the loop over the bulk), the worker closure handed to the pool, and the environments of run and
+// of the helpers it calls (a worker body moved into a helper is read there).
+type bulkModel struct {
+	run     *astx.DeclInfo
+	envs    []*originEnv
+	flag    types.Object
+	counter types.Object
+	worker  *ast.FuncLit
+}
+
+func bulkWorkerModel(c *core.Ctx) *bulkModel {
 	d := fn(c, pkgBulk, "Bulker", "run")
 	if d == nil {
-		return
+		return nil
 	}
 	info := d.Pkg.TypesInfo
-	key := declKey(d)
-	// the worker closure: argument of Submit
-	var worker *ast.FuncLit
-	for _, call := range callsTo(info, d.Decl.Body, named("Submit")) {
-		if len(call.Args) == 1 {
-			worker, _ = call.Args[0].(*ast.FuncLit)
-		}
-	}
-	if worker == nil {
-		c.Fail("DOM/bulk-short-circuit", key+":worker", pos(c, d.Decl), "no worker closure submitted to the pool")
-		return
-	}
-	pe := callsTo(info, worker.Body, named("processElement"))
-	if len(pe) != 1 {
-		c.Fail("DOM/bulk-short-circuit", key+":processElement", pos(c, worker), fmt.Sprintf("worker calls processElement %d times", len(pe)))
-		return
-	}
-	// short circuit: the fact `hasError.Load() && !continueOnFailure` is false at processElement
-	short := false
-	for _, f := range astx.FactsAt(info, worker.Body, pe[0].Pos()) {
-		if !f.Positive {
-			s := types.ExprString(f.Cond)
-			if s == "hasError.Load() && !continueOnFailure" || s == "!continueOnFailure && hasError.Load()" {
-				short = true
+	m := &bulkModel{run: d, envs: scopeEnvs(c, d)}
+	ast.Inspect(d.Decl.Body, func(n ast.Node) bool {
+		switch x := n.(type) {
+		case *ast.AssignStmt:
+			for _, l := range x.Lhs {
+				if id, ok := l.(*ast.Ident); ok && x.Tok == token.DEFINE {
+					if o := info.Defs[id]; o != nil && astx.IsNamed(o.Type(), "sync/atomic", "Bool") {
+						m.flag = o
+					}
+				}
 			}
-		}
-	}
-	// and that if-branch leaves the closure
-	stored := false
-	ast.Inspect(worker.Body, func(n ast.Node) bool {
-		is, ok := n.(*ast.IfStmt)
-		if !ok || len(errorCondVars(info, is.Cond)) == 0 {
-			return true
-		}
-		for _, call := range callsTo(info, is.Body, named("Store")) {
-			if strings.HasSuffix(astx.SelectorPath(recvExpr(call)), "hasError") && len(call.Args) == 1 && astx.ExprString(call.Args[0]) == "true" {
-				stored = true
+		case *ast.ValueSpec:
+			for _, nm := range x.Names {
+				if o := info.Defs[nm]; o != nil && astx.IsNamed(o.Type(), "sync/atomic", "Bool") {
+					m.flag = o
+				}
 			}
+		case *ast.RangeStmt:
+			ast.Inspect(x.Body, func(y ast.Node) bool {
+				if _, isLit := y.(*ast.FuncLit); isLit {
+					return false
+				}
+				if s, ok := y.(*ast.IncDecStmt); ok && s.Tok == token.INC {
+					if id, ok := s.X.(*ast.Ident); ok {
+						m.counter = info.ObjectOf(id)
+					}
+				}
+				return true
+			})
 		}
 		return true
 	})
-	c.Check(short && stored, "DOM/bulk-short-circuit", key, pos(c, worker), "no element is processed after a failure unless continueOnFailure; every failure is recorded", fmt.Sprintf("after the first failure later elements must be skipped unless continueOnFailure, and every failing element must set hasError (short-circuit=%v records=%v)", short, stored))
-	// processElement runs on the controller parameter
-	if len(pe[0].Args) >= 2 {
-		cls := rootClass(info, d, pe[0].Args[1])
-		c.Check(strings.HasPrefix(cls, "param:"), "TXH/bulk-controller", key+":processElement-controller", pos(c, pe[0]), "processElement(ctx, ctrl, …)", "elements are processed on "+cls+" instead of the controller passed to run")
+	for _, call := range callsTo(info, d.Decl.Body, named("Submit")) {
+		if len(call.Args) == 1 {
+			if fl, ok := call.Args[0].(*ast.FuncLit); ok {
+				m.worker = fl
+			}
+		}
 	}
-	// exactly one send per path
+	return m
+}
+
+func ruleBulkWorker(c *core.Ctx) {
+	m := bulkWorkerModel(c)
+	if m == nil {
+		return
+	}
+	d := m.run
+	info := d.Pkg.TypesInfo
+	key := declKey(d)
+	worker := m.worker
+	if worker == nil {
+		c.Unrecognised("DOM/bulk-short-circuit", key+":worker", pos(c, d.Decl), "no worker closure submitted to the pool")
+		return
+	}
+	// where the element is processed: the worker itself, or a helper it calls
+	type site struct {
+		env  *originEnv
+		call *ast.CallExpr
+	}
+	var pes []site
+	for _, e := range m.envs {
+		for _, call := range e.calls(named("processElement")) {
+			pes = append(pes, site{e, call})
+		}
+	}
+	if len(pes) == 0 {
+		c.Fail("DOM/bulk-short-circuit", key+":processElement", pos(c, worker), "the worker no longer processes the element it is handed")
+		return
+	}
+	if len(pes) != 1 || m.flag == nil {
+		c.Unrecognised("DOM/bulk-short-circuit", key+":processElement", pos(c, worker), fmt.Sprintf("worker calls processElement %d times / failure flag identified: %v", len(pes), m.flag != nil))
+		return
+	}
+	pe := pes[0]
+	isFlag := func(e *originEnv, x ast.Expr) bool { return e.rootObj(x) == m.flag }
+	// short circuit: `flag.Load() && !continueOnFailure` is false where the element is processed
+	short := false
+	for _, f := range astx.FactsAt(pe.env.info, pe.env.d.Decl.Body, pe.call.Pos()) {
+		if f.Positive {
+			continue
+		}
+		cj := splitAnd(f.Cond)
+		if len(cj) != 2 {
+			continue
+		}
+		load, notCont := false, false
+		for _, x := range cj {
+			if call, ok := ast.Unparen(x).(*ast.CallExpr); ok {
+				if se, ok := call.Fun.(*ast.SelectorExpr); ok && se.Sel.Name == "Load" && isFlag(pe.env, se.X) {
+					load = true
+				}
+			}
+			if u, ok := ast.Unparen(x).(*ast.UnaryExpr); ok && u.Op == token.NOT {
+				if t := pe.env.info.TypeOf(u.X); t != nil {
+					if b, isB := t.Underlying().(*types.Basic); isB && b.Kind() == types.Bool {
+						notCont = strings.HasPrefix(pe.env.origin(u.X), "param:")
+					}
+				}
+			}
+		}
+		if load && notCont {
+			short = true
+		}
+	}
+	// and every failure is recorded under an error test
+	stored := false
+	for _, e := range m.envs {
+		for _, call := range e.calls(named("Store")) {
+			if len(call.Args) != 1 || !isFlag(e, recvExpr(call)) {
+				continue
+			}
+			if v, known := constBool(e.info, e.d.Decl.Body, call.Args[0]); !known || !v {
+				continue
+			}
+			for _, f := range astx.FactsAt(e.info, e.d.Decl.Body, call.Pos()) {
+				if isErrNilTest(e.info, f.Cond) {
+					stored = true
+				}
+			}
+		}
+	}
+	c.Check(short && stored, "DOM/bulk-short-circuit", key, pos(c, worker), "no element is processed after a failure unless continueOnFailure; every failure is recorded", fmt.Sprintf("after the first failure later elements must be skipped unless continueOnFailure, and every failing element must set hasError (short-circuit=%v records=%v)", short, stored))
+	// processElement runs on the controller parameter of run
+	if len(pe.call.Args) >= 2 {
+		cls := pe.env.origin(pe.call.Args[1])
+		ro := pe.env.rootObj(pe.call.Args[1])
+		c.Check(ro != nil && isParamObj(d, ro), "TXH/bulk-controller", key+":processElement-controller", pos(c, pe.call), "processElement(ctx, ctrl, …)", "elements are processed on "+cls+" instead of the controller passed to run")
+	}
+	// exactly one send per path of the worker
 	flow := astx.NewFlow(info, worker.Body)
+	isResultChan := func(x ast.Expr) bool {
+		p := canonPath(d, x)
+		return len(p) >= 2 && p[0] == 'p' && !strings.Contains(p, ".")
+	}
 	counts := flow.CountOnPaths(func(n ast.Node) bool {
 		s, ok := n.(*ast.SendStmt)
-		return ok && astx.SelectorPath(s.Chan) == "result"
+		return ok && isResultChan(s.Chan)
 	})
 	var bad []string
 	total := 0
@@ -293,27 +405,39 @@ func ruleBulkWorker(c *core.Ctx) {
 	}
 	sort.Strings(bad)
 	c.Check(len(bad) == 0 && total > 0, "PATH/one-result-per-element", key, pos(c, worker), fmt.Sprintf("%d exit/count pairs, all exactly one send", total), fmt.Sprintf("some path through the worker sends a number of results different from one (%v): the response would have fewer or more results than elements", bad))
-	// parallelism
-	okPar := false
+	// parallelism: the pool size is 1 unless the caller asked for a parallel bulk
+	var size types.Object
+	for _, call := range callsTo(info, d.Decl.Body, named("New")) {
+		if f := astx.Callee(info, call); f != nil && f.Pkg() != nil && strings.Contains(f.Pkg().Path(), "pond") && len(call.Args) >= 1 {
+			size = m.envs[0].rootObj(call.Args[0])
+		}
+	}
+	if size == nil {
+		c.Unrecognised("DOM/bulk-parallelism", key, pos(c, d.Decl), "the size handed to the worker pool is not a local variable the rule can follow")
+		return
+	}
+	init1, okPar, others := false, true, 0
 	ast.Inspect(d.Decl.Body, func(n ast.Node) bool {
 		as, ok := n.(*ast.AssignStmt)
-		if !ok || len(as.Lhs) != 1 || astx.ExprString(as.Lhs[0]) != "parallelism" || as.Tok != token.ASSIGN {
+		if !ok || len(as.Lhs) != 1 || len(as.Rhs) != 1 {
 			return true
 		}
+		id, isID := as.Lhs[0].(*ast.Ident)
+		if !isID || info.ObjectOf(id) != size {
+			return true
+		}
+		if tv, ok := info.Types[as.Rhs[0]]; ok && tv.Value != nil && tv.Value.ExactString() == "1" {
+			init1 = true
+			return true
+		}
+		others++
+		guarded := false
 		for _, f := range astx.FactsAt(info, d.Decl.Body, as.Pos()) {
-			if f.Positive && types.ExprString(f.Cond) == "parallel" {
-				okPar = true
+			if fid, ok := ast.Unparen(f.Cond).(*ast.Ident); ok && f.Positive && isParamObj(d, info.ObjectOf(fid)) {
+				guarded = true
 			}
 		}
-		return true
-	})
-	init1 := false
-	ast.Inspect(d.Decl.Body, func(n ast.Node) bool {
-		if as, ok := n.(*ast.AssignStmt); ok && as.Tok == token.DEFINE && len(as.Lhs) == 1 && astx.ExprString(as.Lhs[0]) == "parallelism" {
-			if tv, ok := info.Types[as.Rhs[0]]; ok && tv.Value != nil && tv.Value.ExactString() == "1" {
-				init1 = true
-			}
-		}
+		okPar = okPar && guarded
 		return true
 	})
 	c.Check(okPar && init1, "DOM/bulk-parallelism", key, pos(c, d.Decl), "parallelism = 1 unless parallel", "the worker pool may run elements concurrently although parallel was not requested: a sequential bulk would not apply its elements in order")
@@ -410,43 +534,33 @@ func ruleBulkResultOrder(c *core.Ctx) {
 	if r == nil {
 		return
 	}
+	m := bulkWorkerModel(c)
+	if m == nil || m.counter == nil {
+		c.Fail("WMC/bulk-result-order", declKey(r)+":index-advances", pos(c, r.Decl), "the element index is not advanced per element")
+		return
+	}
+	c.Pass("WMC/bulk-result-order", declKey(r)+":index-advances", pos(c, r.Decl), "index++ per element")
 	n, okAll := 0, true
-	var idx types.Object
-	ast.Inspect(r.Decl.Body, func(x ast.Node) bool {
-		if as, ok := x.(*ast.AssignStmt); ok && as.Tok == token.DEFINE && len(as.Rhs) == 1 && astx.ExprString(as.Rhs[0]) == "index" {
-			if id, ok := as.Lhs[0].(*ast.Ident); ok {
-				idx = r.Pkg.TypesInfo.Defs[id]
+	for _, e := range m.envs {
+		e := e
+		ast.Inspect(e.d.Decl.Body, func(x ast.Node) bool {
+			cl, ok := x.(*ast.CompositeLit)
+			if !ok || astx.RecvTypeName(e.info.TypeOf(cl)) != "BulkElementResult" {
+				return true
 			}
-		}
-		return true
-	})
-	ast.Inspect(r.Decl.Body, func(x ast.Node) bool {
-		cl, ok := x.(*ast.CompositeLit)
-		if !ok || astx.RecvTypeName(r.Pkg.TypesInfo.TypeOf(cl)) != "BulkElementResult" {
+			n++
+			v := fieldOfCompositeLit(cl, keyField)
+			if v == nil || e.rootObj(v) != m.counter {
+				okAll = false
+				c.Fail("WMC/bulk-result-order", fmt.Sprintf("%s:result#%d:%s", declKey(r), n, keyField), pos(c, cl), fmt.Sprintf("this result does not set %s from the element index; the JSON response sorts by %s and pairs results with actions by position, so with parallel=true the result is reported under another element's action", keyField, keyField))
+			}
 			return true
-		}
-		n++
-		v := fieldOfCompositeLit(cl, keyField)
-		id, isID := v.(*ast.Ident)
-		if v == nil || !isID || r.Pkg.TypesInfo.Uses[id] != idx || idx == nil {
-			okAll = false
-			c.Fail("WMC/bulk-result-order", fmt.Sprintf("%s:result#%d:%s", declKey(r), n, keyField), pos(c, cl), fmt.Sprintf("this result does not set %s from the element index; the JSON response sorts by %s and pairs results with actions by position, so with parallel=true the result is reported under another element's action", keyField, keyField))
-		}
-		return true
-	})
+		})
+	}
 	if okAll {
 		c.Pass("WMC/bulk-result-order", declKey(r)+":all-results-indexed", pos(c, r.Decl), fmt.Sprintf("%d results set %s = element index", n, keyField))
 	}
 	c.Floor("WMC/bulk-result-order", "results sent by the worker", n, 4)
-	// the index is incremented once per element
-	inc := false
-	ast.Inspect(r.Decl.Body, func(x ast.Node) bool {
-		if s, ok := x.(*ast.IncDecStmt); ok && s.Tok == token.INC && astx.ExprString(s.X) == "index" {
-			inc = true
-		}
-		return true
-	})
-	c.Check(inc, "WMC/bulk-result-order", declKey(r)+":index-advances", pos(c, r.Decl), "index++ per element", "the element index is not advanced per element")
 }
 
 // ruleBulkErrorCodes: mapBulkElementError covers every error kind the single-request write
